@@ -132,7 +132,7 @@ RERUN_PROFILE = P(forbid=('coro', 'inspect'), windows=0.7, timeouts=0.6,
                   max_jobs=8)
 
 
-RERUN_PROPS = ('C02', 'C04', 'C07', 'C08', 'C11', 'C12', 'C14')
+RERUN_PROPS = ('C01', 'C02', 'C03', 'C04', 'C07', 'C08', 'C11', 'C12', 'C14')
 RERUN_CORO_PROFILE = P(forbid=('inspect',), coro=1.0, windows=0.5,
                        timeouts=0.3, nesting=0.5, forever=0.3, max_depth=2,
                        max_jobs=8)
@@ -141,19 +141,20 @@ RERUN_CORO_PROFILE = P(forbid=('inspect',), coro=1.0, windows=0.5,
 def gen_rerun_case(rng, coro=False):
     """
     The same scheduler objects run twice, jobs_window / timeout re-assigned in
-    between, members removed (possibly all of them) and new jobs added. The
-    library re-runs trees without requirements only (with requirements a
-    second run dies on the clean tree), so edges are dropped; jobs are
-    AbstractJob subclasses (a coroutine object cannot be awaited twice).
+    between, members removed (possibly all of them; only in schedulers without
+    requirements, removal would leave them dangling) and new jobs added. Jobs
+    are AbstractJob subclasses (a coroutine object cannot be awaited twice).
     """
     # (coro: some jobs are Job(coroutine object) instances; what Python does
     # to those in a second run - RuntimeError, the body does not run - is
     # their outcome then: see c02)
     top, feat = gen.gen_tree(rng, RERUN_CORO_PROFILE if coro
                              else RERUN_PROFILE)
+    keep_edges = rng.random() < 0.5
     for node, _, _ in S.walk(top):
         if S.is_sched(node):
-            node['edges'] = []
+            if not keep_edges:
+                node['edges'] = []
             node['build'] = 'ctor'
         elif not coro:
             node['cls'] = 'abstract'
@@ -185,7 +186,7 @@ def gen_rerun_case(rng, coro=False):
             if not S.is_sched(node):
                 continue
             mem = [m['id'] for m in node['members']]
-            if mem and rng.random() < 0.4:
+            if mem and not node['edges'] and rng.random() < 0.4:
                 k = len(mem) if rng.random() < 0.35 else \
                     rng.randrange(1, len(mem) + 1)
                 attrs2[node['id']]["drop"] = rng.sample(mem, k)
@@ -211,7 +212,8 @@ def second_spec(case):
             node['members'] = [m for m in node['members']
                                if m['id'] not in drop]
             node['members'] += [S.clone(n) for n in attrs.get('new') or ()]
-            node['edges'] = []
+            if drop:
+                node['edges'] = []
     return spec2
 
 
@@ -244,18 +246,22 @@ def evaluate_rerun(prop, case):
     hist = History(run)
     viols = []
     if run.outcome not in ('ret', 'exc'):
-        viols.append(oracles.Violation(
-            prop, 'second-run-does-not-terminate', 'rerun',
-            "second run of the same scheduler: {} ({})".format(
-                run.outcome, run.value)))
+        # (a second run that gets stuck: termination is C03's subject; C07,
+        # C08 and C11 have reported it since re-runs exist, the others leave
+        # it to them)
+        if prop in ('C03', 'C07', 'C08', 'C11'):
+            viols.append(oracles.Violation(
+                prop, 'second-run-does-not-terminate', 'rerun',
+                "second run of the same scheduler: {} ({})".format(
+                    run.outcome, run.value)))
     elif prop == 'C14':
         viols = oracles.c14_new_jobs(hist, [
             n['id'] for attrs in case['attrs2'].values()
             for n in attrs.get('new') or ()])
     else:
         fn = oracles.ORACLES[prop]
-        viols = fn(hist) if fn in (oracles.c02, oracles.c04) \
-            else fn(hist, stats)
+        viols = fn(hist) if fn in (oracles.c01, oracles.c02, oracles.c03,
+                                   oracles.c04) else fn(hist, stats)
     for nid, seq, t in hist.stray:
         viols.append(oracles.Violation(
             prop, 'removed-job-takes-part-in-second-run', 'rerun',
